@@ -37,11 +37,9 @@ def run_one(sid, pids):
                             tmp, os.path.join(d, 'patch.diff')],
                            cwd=tmp, capture_output=True, text=True)
         if r.returncode != 0:
-            r = subprocess.run(['patch', '-p1', '-d', tmp, '-i',
-                                os.path.join(d, 'patch.diff')],
-                               capture_output=True, text=True)
-            if r.returncode != 0:
-                return sid, meta, {'_apply': 'FAILED ' + r.stderr[:200]}
+            # (no fuzzy fallback: the stored patch must apply with plain
+            # `git apply` on the current tree; re-make it if fixes moved it)
+            return sid, meta, {'_apply': 'FAILED ' + r.stderr[:200]}
         res = {}
         env = dict(os.environ, VERIF_REPO=tmp,
                    VERIF_EVIDENCE_DIR=os.path.join(tmp, 'evidence'))
